@@ -48,6 +48,14 @@ WantHeaderAt(h, k) ==
        IN <<h[m].f, h[p].f, "comparing", 0, FALSE>>
   ELSE WantHeader(h[k])
 
+\* the file whose name a hunk belongs to (and whose language colours it): the section's new path, or
+\* the old one for a deleted file
+RECURSIVE SecStart(_, _)
+SecStart(h, k) == IF k = 0 \/ IsStart(h[k]) THEN k ELSE SecStart(h, k - 1)
+HunkFile(h, k) == LET d == WantHeaderAt(h, SecStart(h, k)) IN IF d[2] = 0 THEN d[1] ELSE d[2]
+\* C15: each hunk line is highlighted in the language of its own file's name (sy: <<k, file id>> pairs)
+LanguageByName(h, sy) == \A i \in DOMAIN sy : SecStart(h, sy[i][1]) > 0 => sy[i][2] = HunkFile(h, sy[i][1])
+
 \* index one past the last line of the section that starts at i
 RECURSIVE SecEnd(_, _)
 SecEnd(h, j) == IF j > Len(h) \/ Boundaryish(h[j]) THEN j ELSE SecEnd(h, j + 1)
